@@ -115,20 +115,33 @@ type condSink[R any] interface {
 	pred(func(R, error) bool)
 }
 
-func applyConds[R any](cs []cond, mk func(string) R, onErrs func(error), onTypes func(any), onResult func(R), onIf func(func(R, error) bool)) {
+func applyConds[R any](cs []cond, mk func(string) R, onErrs func(...error), onTypes func(...any), onResult func(R), onIf func(func(R, error) bool)) {
+	// registrations of one kind go through ONE variadic call, as users write HandleErrors(a, b) / HandleErrorTypes(A{}, B{})
+	var errs []error
+	var types []any
 	for _, c := range cs {
 		switch c.T {
 		case "errors":
-			onErrs(map[string]error{"E1": errE1, "E2": errE2, "E3": errE3}[c.V])
+			errs = append(errs, map[string]error{"E1": errE1, "E2": errE2, "E3": errE3}[c.V])
 		case "types":
 			switch c.V {
 			case "TV":
-				onTypes(TV{})
+				types = append(types, TV{})
 			case "TP":
-				onTypes(&TP{})
+				types = append(types, &TP{})
 			case "WT":
-				onTypes(WT{})
+				types = append(types, WT{})
 			}
+		}
+	}
+	if len(errs) > 0 {
+		onErrs(errs...)
+	}
+	if len(types) > 0 {
+		onTypes(types...)
+	}
+	for _, c := range cs {
+		switch c.T {
 		case "result":
 			onResult(mk(c.V))
 		case "if":
@@ -161,7 +174,7 @@ func classifyRow[R any](row classRow, mk func(string) R, rev bool) (mis [][2]str
 		marker := errors.New("fallback-marker")
 		applied := 0
 		b := fallback.BuilderWithFunc(func(exec failsafe.Execution[R]) (R, error) { applied++; return fbv, marker })
-		applyConds(conds, mk, func(x error) { b.HandleErrors(x) }, func(x any) { b.HandleErrorTypes(x) }, func(x R) { b.HandleResult(x) }, func(p func(R, error) bool) { b.HandleIf(p) })
+		applyConds(conds, mk, func(x ...error) { b.HandleErrors(x...) }, func(x ...any) { b.HandleErrorTypes(x...) }, func(x R) { b.HandleResult(x) }, func(p func(R, error) bool) { b.HandleIf(p) })
 		n := 0
 		_, err := failsafe.Get(fn(&n), b.Build())
 		got := applied == 1 && err == marker
@@ -172,7 +185,7 @@ func classifyRow[R any](row classRow, mk func(string) R, rev bool) (mis [][2]str
 	// (b) retry policy retries iff failure
 	{
 		b := retrypolicy.Builder[R]().WithMaxRetries(1).ReturnLastFailure()
-		applyConds(conds, mk, func(x error) { b.HandleErrors(x) }, func(x any) { b.HandleErrorTypes(x) }, func(x R) { b.HandleResult(x) }, func(p func(R, error) bool) { b.HandleIf(p) })
+		applyConds(conds, mk, func(x ...error) { b.HandleErrors(x...) }, func(x ...any) { b.HandleErrorTypes(x...) }, func(x R) { b.HandleResult(x) }, func(p func(R, error) bool) { b.HandleIf(p) })
 		n := 0
 		failsafe.Get(fn(&n), b.Build())
 		if (n == 2) != row.Fail || n > 2 {
@@ -183,7 +196,7 @@ func classifyRow[R any](row classRow, mk func(string) R, rev bool) (mis [][2]str
 	{
 		mkb := func() circuitbreaker.CircuitBreaker[R] {
 			b := circuitbreaker.Builder[R]().WithFailureThresholdRatio(5, 5)
-			applyConds(conds, mk, func(x error) { b.HandleErrors(x) }, func(x any) { b.HandleErrorTypes(x) }, func(x R) { b.HandleResult(x) }, func(p func(R, error) bool) { b.HandleIf(p) })
+			applyConds(conds, mk, func(x ...error) { b.HandleErrors(x...) }, func(x ...any) { b.HandleErrorTypes(x...) }, func(x R) { b.HandleResult(x) }, func(p func(R, error) bool) { b.HandleIf(p) })
 			return b.Build()
 		}
 		cb := mkb()
@@ -212,7 +225,7 @@ func classifyRow[R any](row classRow, mk func(string) R, rev bool) (mis [][2]str
 		aborts := 0
 		b := retrypolicy.Builder[R]().WithMaxRetries(1).ReturnLastFailure().HandleIf(func(R, error) bool { return true }).
 			OnAbort(func(failsafe.ExecutionEvent[R]) { aborts++ })
-		applyConds(conds, mk, func(x error) { b.AbortOnErrors(x) }, func(x any) { b.AbortOnErrorTypes(x) }, func(x R) { b.AbortOnResult(x) }, func(p func(R, error) bool) { b.AbortIf(p) })
+		applyConds(conds, mk, func(x ...error) { b.AbortOnErrors(x...) }, func(x ...any) { b.AbortOnErrorTypes(x...) }, func(x R) { b.AbortOnResult(x) }, func(p func(R, error) bool) { b.AbortIf(p) })
 		n := 0
 		failsafe.Get(fn(&n), b.Build())
 		got := "no"
@@ -226,7 +239,7 @@ func classifyRow[R any](row classRow, mk func(string) R, rev bool) (mis [][2]str
 	// (e) hedge cancel conditions: the first attempt's result is accepted at once iff cancellable
 	{
 		b := hedgepolicy.BuilderWithDelay[R](time.Second)
-		applyConds(conds, mk, func(x error) { b.CancelOnErrors(x) }, func(x any) { b.CancelOnErrorTypes(x) }, func(x R) { b.CancelOnResult(x) }, func(p func(R, error) bool) { b.CancelIf(p) })
+		applyConds(conds, mk, func(x ...error) { b.CancelOnErrors(x...) }, func(x ...any) { b.CancelOnErrorTypes(x...) }, func(x R) { b.CancelOnResult(x) }, func(p func(R, error) bool) { b.CancelIf(p) })
 		n := 0
 		t0 := time.Now()
 		var mu atomic.Int32
